@@ -16,12 +16,22 @@
 (*   AgentRM    (after a Prepared) the platform's real resource manager     *)
 (*              initialised from the agent config _prepare_pilot wrote, in *)
 (*              a faked allocation of the size the job requests            *)
-(* kind "bulk" (one per bulk of 2-3 pilots run through the real work() ->  *)
-(*   _start_pilot_bulk -> _prepare_pilot):                                 *)
+(* kind "bulk" (one per bulk of 1-3 pilots run through the real work() ->  *)
+(*   _start_pilot_bulk -> _prepare_pilot -> launcher.launch_pilots, the    *)
+(*   launchers being the real PilotLauncherPSIJ / PilotLauncherSAGA on     *)
+(*   recording stand-ins for the psij / radical.saga modules):             *)
+(*   Launchers  the launchers the component constructed, in its order      *)
 (*   Bulk       _start_pilot_bulk(resource, schema, pilots) was entered    *)
 (*   BPrepared  _prepare_pilot returned for a pilot: endpoints of the      *)
-(*              resource config it was given, figures as in Prepared       *)
-(*   Submit     the launcher was handed the pilots (ok = it did not raise) *)
+(*              resource config it was given, figures as in Prepared, plus *)
+(*              walltime / queue / project / sandbox of the job description*)
+(*   Staged     an agent_0.cfg is staged: sandbox it goes to (tpid), pilot *)
+(*              it was written for (cpid), the figures it tells the agent  *)
+(*   Launch     launch_pilots(rcfg, pilots) of launcher `by` was entered   *)
+(*   Job        a batch job reached the batch system stand-in: the pilot   *)
+(*              the launcher registers it for (pid), what it requests and  *)
+(*              carries (0 = not set)                                      *)
+(*   Submit     launch_pilots returned (ok) or raised                      *)
 (*   Adv        advance(pilots, state)                                     *)
 (*                                                                         *)
 (* errs collects <<clause, event index>>; "C17." clauses of the property,  *)
@@ -30,7 +40,8 @@
 (***************************************************************************)
 EXTENDS SizingOps, TLC, Json, IOUtils
 
-CONSTANTS DomRM, DomLM, DomSched, DomExec, DomAgent
+CONSTANTS DomRM, DomLM, DomSched, DomExec, DomAgent,
+          PsijExecutors    \* batch systems the psij stand-in has an executor for
 
 Dom == [rm |-> DomRM, lm |-> DomLM, sched |-> DomSched, exec |-> DomExec, agent |-> DomAgent]
 
@@ -73,13 +84,24 @@ AgentRMAgrees(p, s, o, e) ==
   /\ e.cpn * o.jd.nodes = o.jd.cpus
   /\ AvailG(p) > 0 => e.gpn * o.jd.nodes = o.jd.gpus
 
+\* the launcher the design picks for pilot q of a bulk trace
+PickOf(q) == Pick(T.lset, Pilot(q).scheme, PsijExecutors)
+
+\* what the job description of pilot pl must ask for (BPrepared event e)
+OwnTerms(pl, e) ==
+  /\ e.walltime = pl.runtime /\ e.project = pl.project
+  /\ e.queue = (IF pl.queue = "" THEN e.defq ELSE pl.queue)
+
 Init ==
   /\ tid \in 1 .. Len(Traces)
   /\ l = 1 /\ errs = {} /\ fin = FALSE
   /\ bst = IF Traces[tid].kind = "bulk"
-           THEN [under |-> [q \in {Traces[tid].pilots[i].pid : i \in 1 .. Len(Traces[tid].pilots)} |-> <<>>],
-                 cur |-> <<>>, failed |-> {}, launched |-> {}]
-           ELSE [under |-> <<>>, cur |-> <<>>, failed |-> {}, launched |-> {}]
+           THEN LET P == {Traces[tid].pilots[i].pid : i \in 1 .. Len(Traces[tid].pilots)} IN
+                [under |-> [q \in P |-> <<>>], cur |-> <<>>, failed |-> {}, launched |-> {},
+                 prepd |-> {}, prep |-> [q \in P |-> <<>>], staged |-> [q \in P |-> 0], jobs |-> [q \in P |-> 0],
+                 via |-> [q \in P |-> "none"]]
+           ELSE [under |-> <<>>, cur |-> <<>>, failed |-> {}, launched |-> {},
+                 prepd |-> {}, prep |-> <<>>, staged |-> <<>>, jobs |-> <<>>, via |-> <<>>]
 
 Step ==
   /\ ~fin /\ l <= Len(Ev)
@@ -121,13 +143,44 @@ Step ==
                /\ bst' = [bst EXCEPT !.cur = <<e.res, e.schema>>]
                /\ errs' = errs \cup At(E(\A i \in 1 .. Len(e.pids) : Named(e.pids[i]) = <<e.res, e.schema>>,
                                           "C17.SchemaOfPilot"), l)
+          [] e.ev = "Launchers" ->
+               \* PSI_J before SAGA, each if its module is installed
+               /\ errs' = errs \cup At(E(e.names = T.lset, "M17.LauncherSet"), l)
+               /\ UNCHANGED bst
           [] e.ev = "BPrepared" ->
                LET o  == [jd |-> e.jd, agent |-> e.agent]
                    pl == Pilot(e.pid) IN
-               /\ bst' = [bst EXCEPT !.under[e.pid] = bst.cur]
+               /\ bst' = [bst EXCEPT !.under[e.pid] = bst.cur, !.prep[e.pid] = e, !.prepd = @ \cup {e.pid}]
                /\ errs' = errs \cup At(
                       E(e.jm = pl.jm /\ e.fs = pl.fs /\ e.ajm = pl.jm /\ e.res = pl.plat, "C17.SchemaOfPilot")
+                 \cup E(OwnTerms(pl, e), "C17.JobTermsPerPilot")
                  \cup (IF e.sized THEN SizeErrs(e.plat, e.size, o) ELSE {}), l)
+          [] e.ev = "Staged" ->
+               \* the agent config which goes to a pilot's sandbox is the one written for
+               \* that pilot and tells the agent the figures prepared for it
+               LET known == e.tpid \in bst.prepd IN
+               /\ bst' = IF e.tpid \in Pids THEN [bst EXCEPT !.staged[e.tpid] = @ + 1] ELSE bst
+               /\ errs' = errs \cup At(
+                      E(known /\ e.cpid = e.tpid /\ e.agent = bst.prep[e.tpid].agent, "C17.JobShipsOwnAgent"), l)
+          [] e.ev = "Launch" ->
+               /\ bst' = [bst EXCEPT !.via = [q \in Pids |-> IF q \in SeqSet(e.pids) THEN e.by ELSE @[q]]]
+               /\ errs' = errs \cup At(
+                      \* handed to a launcher which cannot launch there: the job is never made
+                      E(\A q \in SeqSet(e.pids) \cap Pids : CanLaunch(e.by, Pilot(q).scheme, PsijExecutors),
+                        "C17.LauncherCan")
+                 \cup E(\A q \in SeqSet(e.pids) \cap Pids : e.by = PickOf(q), "M17.LauncherChoice"), l)
+          [] e.ev = "Job" ->
+               LET known == e.pid \in bst.prepd
+                   own   == bst.prep[e.pid] IN
+               /\ bst' = IF e.pid \in Pids THEN [bst EXCEPT !.jobs[e.pid] = @ + 1] ELSE bst
+               /\ errs' = errs \cup At(
+                      IF ~known THEN {"C17.JobPerPilot"}
+                      ELSE   E(SubmitSized(e.by, e.req, own.jd),             "C17.JobSizedPerPilot")
+                        \cup E(SubmitTerms(e, own),                         "C17.JobTermsPerPilot")
+                        \cup E(e.argpid = e.pid /\ e.dir = own.sandbox,     "C17.JobShipsOwnAgent")
+                        \cup E(e.by = bst.via[e.pid],                       "C17.JobPerPilot")
+                        \cup E(\A f \in {"nodes", "cpus", "gpus", "pph"} \ Conveys(e.by) :
+                                  e.req[f] = 0 \/ e.req[f] = own.jd[f],    "M17.ExtraFigure"), l)
           [] e.ev = "Submit" ->
                /\ bst' = IF e.ok THEN [bst EXCEPT !.launched = @ \cup SeqSet(e.pids)] ELSE bst
                /\ errs' = errs
@@ -139,14 +192,21 @@ Step ==
 
 \* end of a bulk: every pilot was prepared (under what it named: checked at the
 \* events); FAILED exactly the pilots of the bucket whose submission was made to fail
+\* and the pilots no installed launcher can take; every other pilot has exactly
+\* one job; exactly one agent config went to the sandbox of every prepared pilot
+MustFail(q) == Pilot(q).bucket = T.fail \/ PickOf(q) = "none"
 BulkErrs ==
   IF T.kind # "bulk" THEN {}
   ELSE LET n == Len(Ev) + 1 IN
        At(  E(\A q \in Pids : bst.under[q] # <<>>, "C17.SchemaOfPilot")
        \cup E(\A q \in Pids :
-                 ((q \in bst.failed /\ bst.under[q] # <<>>) => (Pilot(q).bucket = T.fail))
-                 /\ ((Pilot(q).bucket = T.fail) => (q \in bst.failed)),
-              "C17.LaunchFailureLocal"), n)
+                 ((q \in bst.failed /\ bst.under[q] # <<>>) => MustFail(q))
+                 /\ (MustFail(q) => (q \in bst.failed)),
+              "C17.LaunchFailureLocal")
+       \cup E(\A q \in Pids : q \notin bst.failed => (bst.jobs[q] = 1 /\ q \in bst.launched),
+              "C17.JobPerPilot")
+       \cup E(\A q \in Pids : bst.jobs[q] <= 1, "C17.JobPerPilot")
+       \cup E(\A q \in Pids : q \notin bst.failed => bst.staged[q] = 1, "C17.JobShipsOwnAgent"), n)
 
 Finish ==
   /\ ~fin /\ l > Len(Ev)
